@@ -70,6 +70,23 @@ func validateJSONPatches(patches []byte) error {
 		if strings.HasPrefix(path, "/"+document.PublicKeyProperty) {
 			return fmt.Errorf("%s: cannot modify public keys", patch.JSONPatch)
 		}
+
+		if path == "" {
+			return fmt.Errorf("%s: cannot modify document root", patch.JSONPatch)
+		}
+
+		// move and copy operations read (and move removes) the 'from' location
+		if fromMsg, ok := p["from"]; ok && fromMsg != nil {
+			var from string
+			if err := json.Unmarshal(*fromMsg, &from); err != nil {
+				return fmt.Errorf("%s: invalid from", patch.JSONPatch)
+			}
+
+			if from == "" || strings.HasPrefix(from, "/"+document.ServiceProperty) ||
+				strings.HasPrefix(from, "/"+document.PublicKeyProperty) {
+				return fmt.Errorf("%s: cannot move or copy services, public keys or document root", patch.JSONPatch)
+			}
+		}
 	}
 
 	return nil
